@@ -6,7 +6,7 @@ wt=$(mktemp -d /tmp/seedcf_XXXXXX); rmdir "$wt"
 git -C /repo worktree add --detach "$wt" HEAD >/dev/null 2>&1 || exit 9
 cd "$wt"
 PYTHONPATH="$wt" timeout 300 /venv/bin/python -W ignore "$d/demo.py" >/dev/null 2>&1; clean=$?
-if ! git apply "$d/patch.diff"; then echo "CONFIRM $d: patch does not apply"; cd /; git -C /repo worktree remove --force "$wt"; exit 9; fi
+if ! git apply "$d/patch.diff" 2>/dev/null && ! git apply --3way "$d/patch.diff" 2>/dev/null; then echo "CONFIRM $d: patch does not apply"; cd /; git -C /repo worktree remove --force "$wt"; exit 9; fi
 PYTHONPATH="$wt" timeout 300 /venv/bin/python -W ignore "$d/demo.py" >/dev/null 2>&1; seeded=$?
 if [ "$SKIP_PYTEST" = 1 ]; then tail="(pytest skipped)"; else
 tail=$(/venv/bin/python -m pytest -q -p no:cacheprovider --timeout=900 --continue-on-collection-errors 2>&1 | tail -1); fi
